@@ -150,10 +150,12 @@ TYPE_LOOKUP = '''query ($n: String!) { __type(name: $n) { ...FullType } }'''
 
 
 def check_schema(ctx, rng, S, m, how, case):
-    canon_model = C.from_model(m)
     full = run_introspection(ctx, S, ALL_ON, case)
     if full is None:
         return
+    if m is None:
+        return check_schema_laws(ctx, rng, S, full, how, case)
+    canon_model = C.from_model(m)
     # truthful: the all-options result equals the canonical description of the generating model
     ctx.count("model_comparisons")
     try:
@@ -165,6 +167,11 @@ def check_schema(ctx, rng, S, m, how, case):
     if d:
         ctx.violation("introspection-differs-from-model", {"how": how, "diffs": d[:4]}, case)
         return
+    return check_schema_laws(ctx, rng, S, full, how, case)
+
+
+def check_schema_laws(ctx, rng, S, full, how, case):
+    """The clauses that need no generating model: options, lookups, client schema round trip."""
     # projection law across option sets
     for o in option_sets(rng, ctx.tier):
         if o == ALL_ON:
@@ -284,6 +291,28 @@ def run_case(ctx, seed, k=0):
         return
     ctx.case()
     check_schema(ctx, rng, S, m, how, {**case, "how": how})
+    if how != 'sdl' and rng.random() < 0.5:
+        # the same schema assembled the way hand-written code often does it: from the root types only (types nobody refers
+        # to are then not part of the schema), with an unused built-in scalar listed explicitly, or with the specified
+        # directives left out of an explicit directive list.  The generating model no longer describes these, so only the
+        # laws that need no model are judged (options, lookups, client schema round trip).
+        import graphql as G
+        variant = rng.choice(['roots-only', 'explicit-unused-builtin', 'partial-directives'])
+        kw = S.to_kwargs()
+        if variant == 'roots-only':
+            kw['types'] = None
+        elif variant == 'explicit-unused-builtin':
+            kw['types'] = [rng.choice([G.GraphQLFloat, G.GraphQLID, G.GraphQLInt])] + list(kw['types'] or [])
+        else:
+            kw['directives'] = [d for d in kw['directives'] if d.name not in ('skip', 'specifiedBy', 'oneOf')]
+        try:
+            S2 = G.GraphQLSchema(**kw)
+        except Exception as e:  # noqa: BLE001
+            ctx.violation("construction-fails", {"how": how + ':' + variant, "exception": repr(e)[:300]}, case)
+            return
+        ctx.case()
+        ctx.count("hand_assembled_variants_checked")
+        check_schema(ctx, rng, S2, None, how + ':' + variant, {**case, "how": how, "variant": variant})
     if k % 97 == 0:
         ctx.sample({"seed": seed, "how": how, "sdl": sdl[:600]})
 
